@@ -31,6 +31,26 @@ CORPUS = [
                {'incoming': [], 'marks': [], 'envs': [], 'unsched': []}]},
 ]
 
+def _req(uid, ranks, cpr, **kw):
+    d = dict(uid=uid, ranks=ranks, cpr=cpr, gpr=0, lfs=0, mem=0, rpn=0, colo=None, excl=False, prio=0, env=None, app=None)
+    d.update(kw); return d
+
+
+def gen_idle_script(rng):
+    """property-directed (C04): a task fills the pilot, a second one has to wait, then in ONE iteration a third
+    arrives (has to wait, too) while the first completes; afterwards the pilot is idle and the loop runs on"""
+    nn, cpn = rng.choice([1, 1, 2, 3]), rng.choice([1, 2, 4])
+    nodes = [{'index': i, 'cores': [0] * cpn, 'gpus': [], 'lfs': 0, 'mem': 0} for i in range(nn)]
+    w1 = _req(1, rng.randint(1, nn), rng.randint(1, cpn), prio=rng.choice([0, 0, 1]))
+    w2 = _req(2, rng.randint(1, nn), rng.randint(1, cpn), prio=rng.choice([0, 0, 1]))
+    E = lambda inc=None, un=None: {'incoming': inc or [], 'marks': [], 'envs': [], 'unsched': un or []}
+    iters = [E([{'sched': [_req(0, nn, cpn)]}]), E([{'sched': [w1]}])]
+    if rng.random() < 0.5: iters.append(E())
+    iters.append(E([{'sched': [w2]}], [[0]]))
+    iters += [E(), E(), E()]
+    return {'cfg': {'cpn': cpn, 'gpn': 0, 'lfs': 0, 'mem': 0, 'scattered': rng.random() < 0.7}, 'nodes': nodes, 'iters': iters}
+
+
 APP_WITNESS = {   # F3 (recorded): an application-placed task is not marked busy; the next task gets the same core
     'cfg': {'cpn': 1, 'gpn': 0, 'lfs': 0, 'mem': 0, 'scattered': True},
     'nodes': [{'index': 0, 'cores': [0], 'gpus': [], 'lfs': 0, 'mem': 0}],
@@ -50,6 +70,8 @@ def run(ctx, prop):
     for i in range(n):
         sc = schedlib.gen_script(rng, app_slots=(i % 6 == 5))
         scripts.append(schedlib.fill_releases(rp, sc))
+    for i in range(ctx.n(12, 300)):
+        scripts.append(gen_idle_script(rng))
     for i in range(ctx.n(2, 40)):
         # large pilots: more than 512 releases reach the scheduler within one drain of the unschedule queue
         scripts.append(schedlib.fill_releases(rp, schedlib.gen_big_script(rng)))
